@@ -36,7 +36,7 @@ def run(ctx, replay_ops=None):
     for i, a in enumerate(impl):
         ens = pc.ensure_actions(a)
         n_ens += len(ens)
-        bad = "c03=BAD" in a or (ens and a.count("## c03=ok") != len(ens))
+        bad = "c03=BAD" in a or "bundle=BAD" in a or (ens and a.count("## c03=ok") != len(ens))
         # structural re-check in python, independent of the harness's verdict: step, round, value
         for e in ens:
             f = e.split()
@@ -47,7 +47,8 @@ def run(ctx, replay_ops=None):
             hits += 1
             if hits <= 3:
                 j = pc.case_start(ops, i)
-                ctx.violation("monitor: the real router emitted an ensure action whose certificate does not authenticate the payload: " + a[-300:],
+                ctx.violation("monitor: the real router emitted an ensure action whose certificate does not authenticate the payload, or a bundle that does not verify: "
+                              + a.split(" | ")[0][:300] + " … " + " ".join(t for t in a.split(" ## ")[1:]),
                               {"kind": "monitor", "ops": ops[j:i + 1], "impl_out": a, "harness": pc.HZ}, found_input=True)
     dist["monitor:ensure_actions_checked"] = n_ens
 
@@ -62,7 +63,7 @@ def run(ctx, replay_ops=None):
         seen.add(j)
         if len(seen) > 4:
             break
-        found = pc.ensure_actions(a) != pc.ensure_actions(b) or "c03=BAD" in a
+        found = pc.ensure_actions(a) != pc.ensure_actions(b) or "c03=BAD" in a or "bundle=BAD" in a
         ctx.violation("real router/player differs from PlayerM at event %d of the case: impl `%s` vs model `%s`" % (i - j, a[:240], b[:240]),
                       {"kind": "correspondence", "driver": "model", "ops": ops[j:i + 1], "index": i, "impl_out": a, "model_out": b, "harness": pc.HZ},
                       found_input=found)
